@@ -37,22 +37,22 @@ func (f *Frame) clone() *Frame {
 }
 
 type Exec struct {
-	eng      *Engine
-	fn       *ssa.Function
-	c        *Contract
-	key      string
-	obls     []*Obligation
-	paths    int
-	pathID   int
-	params   map[string]tv
-	inputs   []*Term
-	ordinals map[*ssa.Function]map[ssa.Instruction]map[string]int
-	loopInfo map[*ssa.Function]*loopTable
-	notes    map[string]bool // uncontracted calls, inlined functions, go statements ...
-	errors   []string
-	steps    int
-	maxPaths int
-	entryDecr *Term
+	eng        *Engine
+	fn         *ssa.Function
+	c          *Contract
+	key        string
+	obls       []*Obligation
+	paths      int
+	pathID     int
+	params     map[string]tv
+	inputs     []*Term
+	ordinals   map[*ssa.Function]map[ssa.Instruction]map[string]int
+	loopInfo   map[*ssa.Function]*loopTable
+	notes      map[string]bool // uncontracted calls, inlined functions, go statements ...
+	errors     []string
+	steps      int
+	maxPaths   int
+	entryDecr  *Term
 	pendingTop []string
 }
 
@@ -153,7 +153,7 @@ func (x *Exec) site(fr *Frame, in ssa.Instruction, kind string) string {
 // ---- loops ----
 
 type loopTable struct {
-	headers map[*ssa.BasicBlock]int                     // header -> ordinal (1-based, source order)
+	headers map[*ssa.BasicBlock]int                      // header -> ordinal (1-based, source order)
 	body    map[*ssa.BasicBlock]map[*ssa.BasicBlock]bool // header -> blocks of the natural loop
 }
 
